@@ -62,21 +62,40 @@ Definition redundant_op (o : op) : bool :=
 
 Definition disjoint_b (a b : list reg) : bool := forallb (fun x => negb (memb x b)) a.
 
+(* the forward guard: none of the def-const registers of the candidate is read before being set
+   again in the straight-line code that follows (labels fall through, any other control-flow op
+   ends the scan: keep unless nothing is pending) *)
+Fixpoint flags_guard (pending : list reg) (rest : list op) : bool :=
+  match pending with
+  | [] => true
+  | _ =>
+    match rest with
+    | [] => true
+    | n :: t =>
+        if negb (disjoint_b pending (uses n)) then false
+        else
+          let pending' := filter (fun r => negb (memb r (cdefs n ++ defs n))) pending in
+          match kind n with
+          | KMove _ _ | KNoop | KLabel _ => flags_guard pending' t
+          | KOther opc _ => if is_org_stop opc then nil_b pending' else flags_guard pending' t
+          | _ => nil_b pending'
+          end
+    end
+  end.
+
+Definition rro_drop (o : op) (t : list op) : bool := andb (redundant_op o) (flags_guard (cdefs o) t).
+
 Fixpoint remove_redundant_ops (ops : list op) : list op :=
   match ops with
   | [] => []
-  | o :: t =>
-      let guard := match t with nxt :: _ => disjoint_b (cdefs o) (uses nxt) | [] => true end in
-      if andb (redundant_op o) guard then remove_redundant_ops t else o :: remove_redundant_ops t
+  | o :: t => if rro_drop o t then remove_redundant_ops t else o :: remove_redundant_ops t
   end.
 
 (* the positions remove_redundant_ops keeps *)
 Fixpoint redundant_keep (ops : list op) : list bool :=
   match ops with
   | [] => []
-  | o :: t =>
-      let guard := match t with nxt :: _ => disjoint_b (cdefs o) (uses nxt) | [] => true end in
-      negb (andb (redundant_op o) guard) :: redundant_keep t
+  | o :: t => negb (rro_drop o t) :: redundant_keep t
   end.
 
 (* ---- dce ---- *)
